@@ -1,5 +1,19 @@
-"""Loop-idiom obligations (placeholder: filled in by the deepening phase)."""
+"""Loop-level obligations: comparison of loop-bodied functions with reference implementations at term level."""
+from __future__ import annotations
+
+import os
+
+from ..loader import Program
+from .. import refcmp
+from .common import same_term
+
+REF = os.path.join(os.path.dirname(os.path.dirname(os.path.abspath(__file__))), 'spec', 'ref')
 
 
 def check_base58(ctx):
-    return
+    p = ctx.p
+    ref = Program(REF)
+    for fn in ('encode_base58', 'decode_base58'):
+        fi = p.get_function('helper.' + fn)
+        with ctx.obligation('C10.LOOPS', 'helper.' + fn, None, fi.where) as ob:
+            refcmp.compare(ob, p, ref, 'helper', fn, same_term)
